@@ -175,11 +175,17 @@ def generate(rng, tier, idx):
         enc = 'utf-8'
     join_id = JOIN_FILE if front != 'stream' else 'JT'
     name, q, flags = gen_query(rng, join_id)
-    if family == 'badbyte' and rng.random() < 0.5:
+    pick = rng.random()
+    if family == 'badbyte' and pick < 0.5:
         q = 'select *' if rng.random() < 0.5 else workload.add_bound(rng, 'select *', rng.choice([1, 2]))
         name, flags = 'stream', {'cols': 1, 'bounded': 'top' in q or 'limit' in q}
+    elif family == 'badbyte' and pick < 0.7:
+        # two tables: the damaged byte may be in either, and the JOIN table is read while the query is already under way
+        joins = [sh for sh in workload.select_shapes(join_id) + workload.update_shapes(join_id) if sh[2].get('join')]
+        name, q, flags = rng.choice(joins)
+        flags = dict(flags)
     rows, join_rows = gen_tables(rng, flags, nonascii=(enc != 'latin-1' and rng.random() < 0.4))
-    with_headers = rng.random() < 0.25
+    with_headers = rng.random() < (0.45 if flags.get('join') else 0.25)
     policy = rng.choice(['quoted', 'simple', 'quoted_rfc'])
     in_rows = ([workload.HEADER[:max([len(r) for r in rows] + [1])]] if with_headers else []) + rows
     jrows = None
